@@ -48,14 +48,15 @@ VARIABLES
   lastDeqAt,   \* line index of the latest dequeue
   rr,       \* round-robin cursor reconstructed from the dequeues (1-based index of next queue)
   crashed, raced,
+  pcancel,  \* the user's context has been cancelled (the listener may stop the worker at any later moment)
   ad        \* adapter bookkeeping
 
 vars == <<l, hdr, E, sub, addCall, addRet, enters, exits, enterAt, exitAt, deqd, closeStarted, closeNil, mp,
           waitRet, lastRes, rank, pend, R, ctlPending, ws, epoch, pauseStarts, concNow, concMax, concSince,
-          qclosed, lastExitAt, lastDeqAt, rr, crashed, raced, ad>>
+          qclosed, lastExitAt, lastDeqAt, rr, crashed, raced, pcancel, ad>>
 
 NoCall == [op |-> "none", job |-> 0, qi |-> 0, b |-> 0, n |-> 0, at |-> 0, snap |-> {}, clean |-> FALSE, entered |-> {},
-           rankFloor |-> -1, closedBefore |-> FALSE, qclosedBefore |-> FALSE, waitedBefore |-> FALSE]
+           solo |-> FALSE, rankFloor |-> -1, closedBefore |-> FALSE, qclosedBefore |-> FALSE, waitedBefore |-> FALSE]
 NoHdr == [ev |-> "reset", ep |-> "", mode |-> "gated", wk |-> "plain", conc |-> 1, ncpu |-> 1, queues |-> <<>>, jobs |-> <<>>,
           batches |-> <<>>, clients |-> <<>>, expiry |-> 0, ratio |-> 0, ctx |-> FALSE, strategy |-> "rr",
           idgen |-> FALSE, nobind |-> FALSE, family |-> ""]
@@ -109,7 +110,7 @@ Blank(h) ==
   /\ concSince' = [j \in DOMAIN sub' |-> 0]
   /\ qclosed' = [q \in DOMAIN h.queues |-> "open"]
   /\ lastExitAt' = 0 /\ lastDeqAt' = 0 /\ rr' = 1
-  /\ crashed' = FALSE /\ raced' = FALSE
+  /\ crashed' = FALSE /\ raced' = FALSE /\ pcancel' = FALSE
   /\ ad' = [pending |-> <<>>, unacked |-> {}, acked |-> {}, issued |-> {}, badack |-> 0, earlyack |-> 0, enq |-> {}]
 
 Init ==
@@ -118,7 +119,7 @@ Init ==
   /\ deqd = <<>> /\ closeStarted = <<>> /\ closeNil = <<>> /\ mp = <<>> /\ waitRet = <<>> /\ lastRes = <<>> /\ rank = <<>>
   /\ pend = <<>> /\ R = NoCall /\ ctlPending = 0 /\ ws = "initiated" /\ epoch = "open" /\ pauseStarts = 0
   /\ concNow = {1} /\ concMax = 1 /\ concSince = <<>> /\ qclosed = <<>> /\ lastExitAt = 0 /\ lastDeqAt = 0 /\ rr = 1
-  /\ crashed = FALSE /\ raced = FALSE
+  /\ crashed = FALSE /\ raced = FALSE /\ pcancel = FALSE
   /\ ad = [pending |-> <<>>, unacked |-> {}, acked |-> {}, issued |-> {}, badack |-> 0, earlyack |-> 0, enq |-> {}]
 
 -----------------------------------------------------------------------------
@@ -126,13 +127,13 @@ Init ==
 
 U(v) == UNCHANGED v
 jobVars == <<sub, addCall, addRet, enters, exits, enterAt, exitAt, deqd, closeStarted, closeNil, mp, waitRet, lastRes, rank, concSince>>
-ctlVars == <<pend, R, ctlPending, ws, epoch, pauseStarts, concNow, concMax, qclosed>>
+ctlVars == <<pend, R, ctlPending, ws, epoch, pauseStarts, concNow, concMax, qclosed, pcancel>>
 miscVars == <<lastExitAt, lastDeqAt, rr, crashed, raced, ad>>
 
 \* jobs submitted by a call: Add -> {job}; AddAll -> items
 SubmitSet(op, job, items) == IF op = "Add" THEN {job} ELSE IF op = "AddAll" THEN Range(items) ELSE {}
 StateChanging == {"Pause", "PauseAndWait", "Stop", "WaitAndStop", "Restart", "CancelCtx", "Resume"}
-Unclean(pc) == IF pc.op = "none" THEN pc ELSE [pc EXCEPT !.clean = FALSE]
+Unclean(pc) == IF pc.op = "none" THEN pc ELSE [pc EXCEPT !.clean = FALSE, !.solo = FALSE]
 
 OnCall(e) ==
   LET js == SubmitSet(e.op, e.job, e.items) \cap Jobs
@@ -140,6 +141,7 @@ OnCall(e) ==
       pc == [op |-> e.op, job |-> e.job, qi |-> e.qi, b |-> e.b, n |-> e.n, at |-> l,
              snap |-> {j \in Jobs : sub[j] = "acc"},
              clean |-> (ws = "running" /\ ctlPending = 0 /\ e.op \notin StateChanging),
+             solo |-> (ctlPending = 0),
              entered |-> {j \in Jobs : enters[j] > exits[j]},
              rankFloor |-> IF e.job \in Jobs THEN rank[e.job] ELSE -1,
              closedBefore |-> IF e.job \in Jobs THEN closeNil[e.job] \/ waitRet[e.job] ELSE FALSE,
@@ -168,6 +170,7 @@ OnCall(e) ==
   /\ epoch' = IF e.op \in {"Resume", "Restart"} THEN "open" ELSE epoch
   /\ pauseStarts' = IF e.op \in {"Resume", "Restart"} THEN 0 ELSE pauseStarts
   /\ qclosed' = [q \in Queues |-> IF e.op = "QClose" /\ e.qi = q /\ qclosed[q] = "open" THEN "closing" ELSE qclosed[q]]
+  /\ pcancel' = (pcancel \/ (e.op = "CancelCtx" /\ hdr.ctx))
   /\ U(<<addRet, enters, exits, enterAt, exitAt, deqd, closeNil, waitRet, lastRes, rank>>)
   /\ U(miscVars)
 
@@ -178,8 +181,8 @@ OnRet(e) ==
   LET pc == pend[e.p]
       js == SubmitSet(pc.op, pc.job, e.items) \cap Jobs
       isCtl == pc.op \in ControlOps \/ pc.op = "TunePool"
-      alone == ctlPending = 1
-      othersResuming == \E c \in Clients : c # e.p /\ pend[c].op \in {"Resume", "Restart"}
+      alone == pc.solo /\ ctlPending = 1
+      othersResuming == FALSE
   IN
   /\ pend' = [pend EXCEPT ![e.p] = NoCall]
   /\ R' = pc
@@ -196,8 +199,8 @@ OnRet(e) ==
   /\ rank' = [j \in Jobs |-> IF pc.op \in {"Status", "Wait"} /\ pc.job = j /\ e.res # "nohandle" /\ Rank(e.st) > rank[j] THEN Rank(e.st) ELSE rank[j]]
   /\ ctlPending' = IF isCtl THEN ctlPending - 1 ELSE ctlPending
   /\ ws' = IF ~isCtl \/ pc.op = "TunePool" THEN ws
-           ELSE IF ~alone THEN "unknown"
-           ELSE IF pc.op = "CancelCtx" THEN (IF hdr.ctx THEN "unknown" ELSE ws)
+           ELSE IF ~alone \/ pcancel THEN "unknown"
+           ELSE IF pc.op = "CancelCtx" THEN ws
            ELSE WsOf(e.wss)
   /\ epoch' = IF pc.op \in {"PauseAndWait", "Stop", "WaitAndStop"} /\ e.res = "nil" /\ alone /\ ~othersResuming THEN "strict"
               ELSE IF pc.op = "Pause" /\ e.res = "nil" /\ alone /\ epoch = "open" /\ e.wss = "Paused" /\ ~othersResuming THEN "pause"
@@ -207,7 +210,7 @@ OnRet(e) ==
                    (IF \A c \in Clients : c = e.p \/ pend[c].op # "TunePool" THEN {e.conc} ELSE concNow \cup {e.conc})
                 ELSE concNow
   /\ qclosed' = [q \in Queues |-> IF pc.op = "QClose" /\ pc.qi = q THEN "closed" ELSE qclosed[q]]
-  /\ U(<<addCall, enters, exits, enterAt, exitAt, deqd, closeStarted, mp, concSince, concMax>>)
+  /\ U(<<addCall, enters, exits, enterAt, exitAt, deqd, closeStarted, mp, concSince, concMax, pcancel>>)
   /\ U(miscVars)
 
 OnEnter(e) ==
@@ -217,7 +220,7 @@ OnEnter(e) ==
        ELSE U(<<enters, enterAt>>)
   /\ pauseStarts' = IF epoch = "pause" THEN pauseStarts + 1 ELSE pauseStarts
   /\ U(<<sub, addCall, addRet, exits, exitAt, deqd, closeStarted, closeNil, mp, waitRet, lastRes, rank, concSince>>)
-  /\ U(<<pend, R, ctlPending, ws, epoch, concNow, concMax, qclosed>>)
+  /\ U(<<pend, R, ctlPending, ws, epoch, concNow, concMax, qclosed, pcancel>>)
   /\ U(miscVars)
 
 OnExit(e) ==
@@ -340,12 +343,12 @@ C05_Returns == Quiescent => \A c \in Clients : pend[c].op # "none" /\ (\E i \in 
 
 ---- \* C06 barriers
 C06_WUF == IsRet("WUF") /\ R.clean => \A j \in R.snap : Settled(j)
-C06_Drained == E.ev = "ret" /\ E.op \in {"PauseAndWait", "Stop", "WaitAndStop"} /\ E.res = "nil" =>
+C06_Drained == E.ev = "ret" /\ E.op \in {"PauseAndWait", "Stop", "WaitAndStop"} /\ E.res = "nil" /\ R.solo =>
                   IF Gated THEN Inflight = {} ELSE R.entered \cap Inflight = {}
 \* at rest no barrier caller sleeps although nothing is in flight (and, on a running worker, nothing is pending)
 C06_Returns == Quiescent => \A c \in Clients :
                   pend[c].op \in BarrierOps /\ (\E i \in DOMAIN E.blocked : E.blocked[i] = c)
-                  => ~(E.processing = 0 /\ (E.wss # "Running" \/ E.pending = 0))
+                  => ~(E.processing = 0 /\ (E.pending = 0 \/ (pend[c].solo /\ pend[c].op \in {"PauseAndWait", "Stop", "Restart"})))
 
 ---- \* C07 own outcome, panics contained
 ExpRes(j) == IF exits[j] = 0 THEN <<0, "", 0>>
